@@ -275,6 +275,29 @@ pub struct Expect {
     pub kv: BTreeMap<Key, u32>,
     pub root: [u8; 32],
     pub seqn: u32,
+    /// (h, root): the rollback log of this state holds h commits; rolling all of them back gives
+    /// this root (None: rollback disabled or nothing logged)
+    pub deep: Option<(usize, [u8; 32])>,
+}
+
+/// the deepest rollback the model state allows and the root it leads to (model state unchanged)
+pub fn deep_of(model: &mut Model, vhash: &dyn Fn(u32) -> [u8; 32]) -> Option<(usize, [u8; 32])> {
+    let h: usize = model.ask("histlen").parse().unwrap_or(0);
+    if h == 0 {
+        return None;
+    }
+    model.expect_ok("save deep__");
+    let r = model.ask(&format!("rollback {}", h));
+    let res = if r == "ok" {
+        model.expect_ok("viewcur");
+        let t = eval_table::<H>(&model.ask_multi("table"), vhash);
+        Some((h, t.root))
+    } else {
+        None
+    };
+    model.expect_ok("load deep__");
+    model.expect_ok("viewcur");
+    res
 }
 
 pub struct Ctx {
@@ -294,12 +317,19 @@ fn model_expect(model: &mut Model, vhash: &dyn Fn(u32) -> [u8; 32]) -> Expect {
     }
     let t = eval_table::<H>(&model.ask_multi("table"), vhash);
     let seqn: u32 = model.ask("seqn").parse().unwrap();
-    Expect { kv, root: t.root, seqn }
+    let deep = deep_of(model, vhash);
+    Expect { kv, root: t.root, seqn, deep }
 }
 
 /// Open the directory in this process and compare with the expected states; returns which one
 /// matched (0 = old, 1 = new) or a description of the failure.
 pub fn verify_dir(dir: &Path, cfg: &Cfg, cands: &[&Expect], keys: &[Key], vid_of: &dyn Fn(&[u8]) -> Option<u32>) -> Result<usize, String> {
+    verify_dir_ex(dir, cfg, cands, keys, vid_of, false)
+}
+
+/// `deep`: finally roll back as many commits as the matched state's rollback log must hold (this
+/// changes the directory, so only where it is not used afterwards)
+pub fn verify_dir_ex(dir: &Path, cfg: &Cfg, cands: &[&Expect], keys: &[Key], vid_of: &dyn Fn(&[u8]) -> Option<u32>, deep: bool) -> Result<usize, String> {
     let mut r = std::panic::catch_unwind(|| Nomt::<H>::open(cfg.options(&dir.to_path_buf())));
     let mut tries = 0;
     while let Ok(Err(e)) = &r {
@@ -363,6 +393,18 @@ pub fn verify_dir(dir: &Path, cfg: &Cfg, cands: &[&Expect], keys: &[Key], vid_of
         }
     }
     drop(sess);
+    if let (true, Some((h, want))) = (deep, exp.deep) {
+        match std::panic::catch_unwind(std::panic::AssertUnwindSafe(|| db.rollback(h))) {
+            Ok(Ok(())) => {
+                let got = db.root().into_inner();
+                if got != want {
+                    return Err(format!("rolling back the {} logged commits of the recovered ({}) state gives root {} instead of {}", h, if which == 0 { "old" } else { "new" }, hex(&got), hex(&want)));
+                }
+            }
+            Ok(Err(e)) => return Err(format!("the recovered ({}) state must be able to roll back {} commits: {:#}", if which == 0 { "old" } else { "new" }, h, e)),
+            Err(_) => return Err(format!("rollback({}) on the recovered state panics", h)),
+        }
+    }
     drop(db);
     Ok(which)
 }
@@ -624,7 +666,7 @@ pub fn run_io_scenario(sc: &IoScenario, what: &str, rng: &mut Rng, max_points: u
                         continue;
                     }
                     let exp = if w == 0 { &cont_old } else { &cont_new };
-                    if let Err(e) = verify_dir(&dk, &sc.cfg, &[exp], &keys, &vid_of) {
+                    if let Err(e) = verify_dir_ex(&dk, &sc.cfg, &[exp], &keys, &vid_of, true) {
                         out.violations.push(("crash-continue".into(), format!("crash at event {} ({}): after a further commit on the recovered store: {}", k, when, e), replay_head(&format!("crash point: event {} ({})", k, when))));
                     }
                 }
